@@ -16,12 +16,15 @@ FEATURES = {
     # not part of the E1 alphabet: it is known finding K4 (C17) and only C17/C12 enumerate it
     "filt": ["sd", "none", "grow", "shrink", "two", "states", "mix"],
     "e": [0, 1],
-    "cc": ["c", "none", "cl"],
+    # "cl": second continuous choice b (3 points); "three": third continuous choice q (2 points)
+    "cc": ["c", "none", "cl", "three"],
     "wgrid": ["lin", "log", "extrap", "disc"],
     "k": ["none", "lin", "log"],
     "g": [0, 1],
     "h": ["none", "h", "hd", "dh", "ph", "s", "hg", "two", "restricted", "hp", "dph"],
-    "cons": ["c", "none", "disc", "period", "param", "aux"],
+    # "tight": c <= w - 0.2629, so the lowest wealth states have NO feasible choice (supported only for T=1,
+    # where their value must be exactly -inf)
+    "cons": ["c", "none", "disc", "period", "param", "aux", "tight"],
     # make_source also supports "reduce" (a legal scalar function that is NOT broadcast-safe: it reduces
     # over a stacked array); it is enumerated explicitly by C03/C13 only, because simulate evaluates the
     # transition functions on whole agent vectors (known finding K5)
@@ -64,7 +67,7 @@ def normalise(fv):
         return None
     if fv["filt"] in ("grow", "shrink") and fv["h"] == "s":
         pass
-    if fv["cc"] == "none" and fv["cons"] in ("period", "param", "aux"):
+    if fv["cc"] == "none" and fv["cons"] in ("period", "param", "aux", "tight"):
         return None
     if fv["wgrid"] == "disc" and fv["k"] != "none":
         return None  # k transition uses continuous w
@@ -76,8 +79,9 @@ def normalise(fv):
 def make_source(fv):
     """Return (source_text, states(list of (name, gridexpr)), choices, function_names, params, meta)."""
     T = fv["T"]
-    has_c = fv["cc"] in ("c", "cl")
-    has_l = fv["cc"] == "cl"
+    has_c = fv["cc"] in ("c", "cl", "three")
+    has_l = fv["cc"] in ("cl", "three")
+    has_q = fv["cc"] == "three"
     has_e = bool(fv["e"])
     has_g = bool(fv["g"])
     has_h = fv["h"] != "none"
@@ -122,6 +126,8 @@ def make_source(fv):
     if has_c:
         if fv["cons"] in ("c", "disc"):
             cons_exprs.append(("c_constraint", ["c", "w"], "c <= w + 0.2371" if not wdisc else "c <= w + 0.7371"))
+        elif fv["cons"] == "tight":
+            cons_exprs.append(("c_constraint", ["c", "w"], "c <= w - 0.7629" if not wdisc else "c <= w - 0.2629"))
         elif fv["cons"] == "period":
             cons_exprs.append(("c_constraint", ["c", "w", "_period"], "c <= w + 0.2371 + 0.5 * _period"))
         elif fv["cons"] == "param":
@@ -167,6 +173,9 @@ def make_source(fv):
     if has_l:
         uargs.append("b")
         terms.append("+ 0.3 * jnp.log(b) - 0.05 * b * d")
+    if has_q:
+        uargs.append("q")
+        terms.append("+ 0.11 * q * (1 + s) - 0.23 * q * q")
     if aux_arg:
         uargs.append(aux_arg)
         terms.append(f"+ 0.05 * {aux_arg}" + (" * w" if aux_arg == "kconst" else ""))
@@ -286,10 +295,10 @@ def make_source(fv):
 
     # ---------------- variables
     states = [("s", "D(3)"), ("w", {"lin": "Lin(1, 5, 5)", "log": "Log(1, 5, 5)", "extrap": "Lin(1, 5, 5)", "disc": "D(4)"}[fv["wgrid"]])]
+    if has_h:
+        states.append(("h", "D(2)"))  # h before g: declaration order != alphabetical order
     if has_g:
         states.append(("g", "D(2)"))
-    if has_h:
-        states.append(("h", "D(2)"))
     if has_k:
         states.append(("k", "Lin(0.5, 2.0, 3)" if fv["k"] == "lin" else "Log(0.5, 2.0, 4)"))
     choices = [("d", "D(2)")]
@@ -299,6 +308,8 @@ def make_source(fv):
         choices.append(("c", "Lin(0.5, 3.0, 6)"))
     if has_l:
         choices.append(("b", "Lin(0.2, 1.2, 3)"))  # declared after c: declaration order != alphabetical
+    if has_q:
+        choices.insert(0, ("q", "Lin(0.0, 1.0, 2)"))
     if fv["order"] == "srev":
         states = states[::-1]
     if fv["order"] == "crev":
